@@ -7,7 +7,7 @@ NOT_APPLICABLE = {}
 
 PROPS = {
     'C01': {
-        'modules': ['C01', 'TieWrite', 'TieRead', 'TieCodec'],
+        'modules': ['C01', 'TieWrite', 'TieRead', 'TieRun', 'TieCodec'],
         'families': [('ep:pipe', 400, 4000), ('ep:sizes', 400, 8000), ('tp', 100, 3000)],
         'rule': 'message sequences (text, binary, ping, pong) with payload sizes 0, 1, 125/126/127, 4095..4097, 65535/65536/65537, 70000 written by a '
                 'real endpoint of either role under partial writes and WouldBlock, its real wire output read by a real endpoint of the other role '
@@ -23,7 +23,7 @@ PROPS = {
         'level_note': 'Composition of C10, C18, C19, C05. BytesMut capacity policy is not modelled (chunk sizes universally quantified).',
     },
     'C04': {
-        'modules': ['C04', 'C04Progress', 'C04Pair', 'TieWrite', 'TieRead'],
+        'modules': ['C04', 'C04Progress', 'C04Pair', 'TieWrite', 'TieRead', 'TieRun'],
         'families': [('ep:slotrace', 1, 1), ('tp', 2000, 60000), ('ep:close', 500, 10000), ('ep:backpressure', 800, 20000)],
         'rule': 'two real endpoints (client and server) joined by two in-memory pipes: adaptive random schedules of {write data, ping, pong, flush, read, '
                 'close} on both sides x delivery granularity (1 byte .. all) x write-side WouldBlock windows x flush blocks, incl. simultaneous close and '
@@ -42,7 +42,7 @@ PROPS = {
         'level_note': 'The per-side monitors of C03, C07 and C13 also run on both sides of every two-party case; the joint monitor ties the two-party model to the crate.',
     },
     'C07': {
-        'modules': ['C07', 'TieWrite', 'TieRead', 'TieCodec'],
+        'modules': ['C07', 'TieWrite', 'TieRead', 'TieRun', 'TieCodec'],
         'families': [('corpus:', 0, 0), ('ep:tinybuf', 600, 15000), ('ep:hostile', 2500, 80000), ('ep:mixed', 500, 20000), ('ep:limits', 300, 10000),
                      ('hs:server', 1200, 40000), ('hs:client', 1200, 40000), ('tp', 150, 4000)],
         'rule': 'random, mutated-valid and boundary-crafted byte streams x per-call transport outcomes {n bytes, 0, WouldBlock, Interrupted, reset, '
@@ -76,7 +76,7 @@ PROPS = {
         'level_note': 'Partial for key unpredictability.',
     },
     'C13': {
-        'modules': ['C13', 'TieWrite', 'TieRead'],
+        'modules': ['C13', 'TieWrite', 'TieRead', 'TieRun'],
         'families': [('ep:slotrace', 1, 1), ('corpus:defects', 0, 0), ('ep:backpressure', 2500, 80000), ('ep:close', 800, 20000), ('tp', 150, 4000)],
         'rule': 'histories x WouldBlock windows on write/flush x max_write_buffer_size from just above the largest frame to unlimited x write_buffer_size',
         'assumptions': ['max_write_buffer_size holds the largest single frame of the history when empty (property quantifier; hypothesis hfit)'],
@@ -90,7 +90,7 @@ PROPS = {
         'level_note': 'The first statement of pong_never_dropped was proved false (a user pong replaces the pending one) and corrected.',
     },
     'C02': {
-        'modules': ['C02', 'TieWrite', 'TieRead', 'TieCodec'],
+        'modules': ['C02', 'TieWrite', 'TieRead', 'TieRun', 'TieCodec'],
         'families': [('ep:codec', 2500, 80000), ('ep:utf8', 500, 10000), ('ep:utf8cuts', 1, 1), ('ep:limits', 500, 10000)],
         'rule': 'well-formed frame sequences with arbitrary fragmentation and interleaved control frames, and the same with a single rule '
                 'violation injected (RSV, reserved opcodes, fragmented / oversized control, stray continuation, nested data frame, wrong '
@@ -107,7 +107,7 @@ PROPS = {
                       '(C05_unlimited_needs_size_bound) and replaced by effective limits / a size hypothesis.',
     },
     'C05': {
-        'modules': ['C05', 'TieWrite', 'TieRead', 'TieCodec'],
+        'modules': ['C05', 'TieWrite', 'TieRead', 'TieRun', 'TieCodec'],
         'families': [('ep:codec', 2500, 80000), ('ep:sizes', 300, 5000), ('ep:pipe', 150, 3000)],
         'rule': 'inbound streams under many segmentations (1-byte, small, large chunks, WouldBlock between segments), every (pre-read, rest) split '
                 'the generator picks, six read-buffer sizes; each case compared with the one-shot decoder of the whole stream',
@@ -172,7 +172,7 @@ PROPS = {
                       'response head; bytes beyond the head are handed to the socket) under the assumption hstable about httparse.',
     },
     'C03': {
-        'modules': ['C03', 'TieWrite', 'TieRead'],
+        'modules': ['C03', 'TieWrite', 'TieRead', 'TieRun', 'TieExamples'],
         'families': [('ep:slotrace', 1, 1), ('corpus:defects', 0, 0), ('ep:exhaustive', 3, 4), ('ep:close', 2500, 80000), ('ep:mixed', 800, 20000), ('ep:hostile', 500, 20000)],
         'rule': 'interleavings of user calls (read, write of each kind, flush, close) with peer frames (data, ping, close, garbage after '
                 'close), transport EOF/reset at any point, WouldBlock on any write or flush, both roles; corpus = the witnesses of the '
@@ -190,7 +190,7 @@ PROPS = {
                       'evaluates the seven sub-claims on every implementation trace.',
     },
     'C10': {
-        'modules': ['C10', 'TieWrite', 'TieRead', 'TieCodec'],
+        'modules': ['C10', 'TieWrite', 'TieRead', 'TieRun', 'TieCodec', 'TieExamples'],
         'families': [('ep:slotrace', 1, 1), ('corpus:defects', 0, 0), ('ep:backpressure', 2000, 60000), ('ep:sizes', 300, 5000), ('ep:mixed', 500, 20000)],
         'rule': 'message sequences x per-call transport write outcomes (accept k of n for many k, WouldBlock, repeated) x flush outcomes '
                 'x write_buffer_size',
@@ -203,7 +203,7 @@ PROPS = {
         'level_note': 'Unbounded histories by induction; tie to code by correspondence (wire bytes compared byte for byte, masks fixed by the hook).',
     },
     'C06': {
-        'modules': ['C06', 'C06Global', 'TieWrite', 'TieRead', 'TieCodec'],
+        'modules': ['C06', 'C06Global', 'TieWrite', 'TieRead', 'TieRun', 'TieCodec'],
         'families': [('corpus:limits', 0, 0), ('ep:limits', 1500, 40000), ('ep:codec', 500, 10000)],
         'rule': 'frame/fragment size patterns around the configured limits (limit-1, limit, limit+1; limits 0,1,5,10,125,126,300), '
                 'headers announcing up to 2^64-1 bytes with nothing following, every read-buffer size; read-only cases are also '
@@ -220,7 +220,7 @@ PROPS = {
                       'refinement theorem of C05 (C05_segmentation_independent) together with C06_spec_messages_bounded.',
     },
     'C11': {
-        'modules': ['C11', 'C11Global', 'TieWrite', 'TieRead'],
+        'modules': ['C11', 'C11Global', 'TieWrite', 'TieRead', 'TieRun'],
         'families': [('ep:slotrace', 1, 1), ('corpus:defects', 0, 0), ('ep:ping', 2000, 60000), ('ep:backpressure', 800, 20000)],
         'rule': 'sequences of pings (payload 0..125) interleaved with data, user pongs and closes, read/write/flush call patterns, '
                 'WouldBlock on any write or flush, small write buffers',
@@ -235,7 +235,7 @@ PROPS = {
                       'in order: none invented, none reordered), C11_ping_makes_pong_pending, C13_pong_never_dropped.',
     },
     'C12': {
-        'modules': ['C12', 'C12Global', 'TieWrite', 'TieRead'],
+        'modules': ['C12', 'C12Global', 'TieWrite', 'TieRead', 'TieRun'],
         'families': [('ep:slotrace', 1, 1), ('corpus:defects', 0, 0), ('ep:close', 2000, 60000), ('ep:backpressure', 1500, 40000), ('pure:closecode', 1, 1)],
         'rule': 'close frames with every class of status code (all 65536 through the conversion functions), reasons empty..123 bytes, '
                 'arriving in every connection state, with and without a pending pong',
@@ -248,7 +248,7 @@ PROPS = {
         'level_note': '"Exactly one Close reaches the wire" is the CloseLast part of the C03 invariant plus C13; here per-call theorems for every state.',
     },
     'C14': {
-        'modules': ['C14', 'C14Global', 'TieWrite', 'TieCodec'],
+        'modules': ['C14', 'C14Global', 'TieWrite', 'TieCodec', 'TieExamples'],
         'families': [('ep:slotrace', 1, 1), ('corpus:defects', 0, 0), ('ep:backpressure', 2000, 60000), ('ep:tinybuf', 600, 15000), ('ep:wbound', 1, 1), ('ep:mixed', 500, 10000)],
         'rule': '(write_buffer_size, max_write_buffer_size) pairs incl. 0 and adjacent values, message size sequences, transport refusal '
                 'windows, ping floods while blocked',
@@ -261,7 +261,7 @@ PROPS = {
         'level_note': 'Codec- and call-level theorems for every state; the history-level bound is the `bound` field of the C03 invariant.',
     },
     'C08': {
-        'modules': ['C08', 'TieWrite', 'TieRead'],
+        'modules': ['C08', 'TieWrite', 'TieRead', 'TieRun'],
         'families': [('ep:utf8cuts', 1, 1), ('pure:utf8', 500, 20000), ('pure:utf8c', 8, 200), ('ep:utf8', 1500, 40000), ('corpus:utf8', 0, 0)],
         'rule': 'from_utf8 / utf8::decode on all 1- and 2-byte strings, 3-/4-byte strings around every table boundary and structured '
                 'valid/invalid/truncated strings; Incomplete::try_complete on every incomplete-prefix shape x next bytes; text messages '
